@@ -22,7 +22,7 @@ RULE += ' Also: Pairs are also placed 1e3..1e6 sizes from the origin; exactly ax
 CONFIGS = ['scipy']
 BUDGET = {'quick': 2400, 'thorough': 100000}
 REQUIRED = ['pair:LL', 'pair:LQ', 'pair:QC', 'pair:CC', 'pair:AL', 'pair:LA', 'pair:AC', 'pair:AA', 'cfg:crossing', 'cfg:tangent',
-            'cfg:nearmiss', 'cfg:disjoint', 'cfg:random', 'cfg:endtouch', 'cfg:tjunction', 'paths', 'returned_pairs', 'far_from_origin', 'paths_with_twin_arcs', 'justonemode_result', 'explicit_tol']
+            'cfg:nearmiss', 'cfg:disjoint', 'cfg:random', 'cfg:endtouch', 'cfg:tjunction', 'paths', 'returned_pairs', 'far_from_origin', 'justonemode_result', 'explicit_tol']
 CASE_TIMEOUT = 8
 TIME_LIMIT = {'quick': 250, 'thorough': 3300}
 
